@@ -1117,12 +1117,16 @@ def check_C14(ctx):
            [b'a@\xc3\xbc.de', b'd@\xc3\xb1.x', 'и@почта.рф'.encode(), 'я@яндекс.рф'.encode(), b'a@b.com', b'x@[IPv6:::1]']
     pool = [a for a in pool if 0 not in a][:1500]
     inp = ('\n'.join(hx(a) for a in pool) + '\n').encode()
-    runs = [(2, 3), (4, 2), (8, 1), (16, 1)] if not ctx.thorough() else [(2, 20), (3, 10), (4, 10), (8, 6), (16, 4), (16, 8)]
+    # rounds == 0: cold start (no library call before the threads are released together)
+    runs = [(2, 0), (8, 0), (16, 0), (2, 3), (4, 2), (8, 1), (16, 1)] if not ctx.thorough() else [(2, 0), (3, 0), (8, 0), (16, 0), (16, 0), (2, 20), (3, 10), (4, 10), (8, 6), (16, 4), (16, 8)]
     total = 0; nb = 0
     env = dict(os.environ); env.update({'TSAN_OPTIONS': 'halt_on_error=0:exitcode=66:report_signal_unsafe=0:second_deadlock_stack=1', 'LC_ALL': 'C'})
     for k, (nt, rounds) in enumerate(runs):
+        env.pop('THREADS_COLD', None)
+        if rounds == 0:
+            env['THREADS_COLD'] = '1'
         try:
-            r = subprocess.run([exe, str(nt), str(rounds), str(ctx.seed + k)], input=inp, stdout=subprocess.PIPE, stderr=subprocess.PIPE, env=env, timeout=900)
+            r = subprocess.run([exe, str(nt), str(max(rounds, 1)), str(ctx.seed + k)], input=inp, stdout=subprocess.PIPE, stderr=subprocess.PIPE, env=env, timeout=900)
         except subprocess.TimeoutExpired:
             ctx.rep.violation({'kind': 'threads', 'threads': nt, 'explanation': 'thread harness did not finish in 900 s'}); continue
         so, se = r.stdout.decode('utf-8', 'replace'), r.stderr.decode('utf-8', 'replace')
@@ -1136,7 +1140,7 @@ def check_C14(ctx):
                                'mismatches': [l for l in so.splitlines() if l.startswith('MISMATCH')][:5], 'tsan_report': (races[0][:2500] if races else se[-1500:]),
                                'addresses_hex': [hx(a) for a in pool[:50]],
                                'explanation': 'concurrent validation differs from sequential validation and/or ThreadSanitizer reports an unsynchronised access to shared memory inside the library',
-                               'replay': 'harness/threads.c built with -fsanitize=thread against a TSan build of /repo: threads %d %d %d < addresses' % (nt, rounds, ctx.seed + k)})
+                               'replay': 'harness/threads.c built with -fsanitize=thread against a TSan build of /repo: %sthreads %d %d %d < addresses' % ('THREADS_COLD=1 ' if rounds == 0 else '', nt, max(rounds, 1), ctx.seed + k)})
     ctx.rep.evals += total
     import hashlib
     for a in pool: ctx.rep.nontrivial.add(hashlib.blake2b(a, digest_size=8).digest())
